@@ -1,4 +1,5 @@
 import GoLevel.Model.Iter
+import GoLevel.Model.MergeHeap
 import GoLevel.Driver.Key
 /-! Line-protocol handler for the iterator layer (C02).  Stateful: `it new …` installs an iterator,
 the following `it first|last|next|prev|seek <key>` lines move it.
@@ -11,6 +12,10 @@ it new mergedx <cmp> <nchild> (a <n> (<ikey> <val>)* | s <start|nil> <limit|nil>
 it new dbiter  <cmp> <seq> <start|nil> <limit|nil> <n> (<ikey> <val>)*     DBIter over one sorted array
 it new dblayers <cmp> <seq> <start|nil> <limit|nil> <nchild> (m <n> (<ikey> <val>)* | l <ntab> (<n> (<ikey> <val>)*)*)*
                                                                             DBIter over the merged raw iterator
+it new hmerged  … | it new hmergedx …                                      same syntax as merged / mergedx, answered by
+                                                                            the heap model (`Model/MergeHeap.lean`:
+                                                                            `container/heap` transcribed); children may
+                                                                            hold equal keys (real tie-breaking)
 it first | it last | it next | it prev | it seek <key>      ⇒  true <key> <val> | false nil nil
 ```
 `<ikey>` is an encoded internal key; `seek` takes an internal key for merged/indexed, a user key for the
@@ -22,6 +27,7 @@ open GoLevel
 inductive ItState
   | none
   | raw (c : UCmp) (m : MergedIter Node)
+  | hraw (c : UCmp) (m : MergedIter Node)
   | idx (c : UCmp) (x : IndexedIter)
   | flat (c : UCmp) (d : DBIter ArrIter)
   | layers (c : UCmp) (d : DBIter (MergedIter Node))
@@ -81,6 +87,14 @@ def pNew : P ItState := do
     let n ← pNat
     let ch ← pRep pEntries n
     done (.raw c (MergedIter.new (ch.map fun es => Node.arr (ArrIter.new c es .none .none))))
+  else if kind = "hmerged" then do
+    let n ← pNat
+    let ch ← pRep pEntries n
+    done (.hraw c (MergedIter.new (ch.map fun es => Node.arr (ArrIter.new c es .none .none))))
+  else if kind = "hmergedx" then do
+    let n ← pNat
+    let ch ← pRep (pNodeX c) n
+    done (.hraw c (MergedIter.new ch))
   else if kind = "indexed" then do
     let bs ← pBlocks
     done (.idx c (IndexedIter.new bs))
@@ -138,6 +152,11 @@ def handleIt (st : ItState) : List String → Option (ItState × String)
       let o := MergedIter.ops (Node.ops c) c
       let m' := o.step cl m
       pure (.raw c m', showEntry (o.cur m'))
+    | .hraw c m => do
+      let cl ← parseCallI args
+      let o := HeapMerged.ops (Node.ops c) c
+      let m' := o.step cl m
+      pure (.hraw c m', showEntry (o.cur m'))
     | .idx c x => do
       let cl ← parseCallI args
       let o := IndexedIter.ops c
